@@ -722,8 +722,8 @@ def rule_orthogonal_indexer(ctx, rid='R8'):
                     why = 'array index at position %d is not converted by np.ix_ although another dimension is array-indexed: NumPy would pair the arrays element-wise' % i
                 if a == 'FULL' and b not in ('FULL', 'IX'):
                     why = 'full slice changed into %s' % b
-            if why is None and any(k == 'IX' for k in res):
-                adv = [i for i, k in enumerate(res) if k in ('IX', 'INT')]
+            if why is None and any(k in ('IX', 'ARR') for k in res):
+                adv = [i for i, k in enumerate(res) if k in ('IX', 'ARR', 'INT')]
                 for i, k in enumerate(res):
                     if k in ('FULL', 'SL') and adv and min(adv) < i < max(adv):
                         why = ('the slice at position %d is left between advanced indices (%s): NumPy moves the indexed dimensions to the front, so the values '
